@@ -162,5 +162,5 @@ def units(tier):
         bounded_unit("C05/pipeline-vs-cycle-oracle", "dg_oracle", [(KDG, "KernelDG.check_for_loopcarried_dep"), (KDG, "KernelDG._extend_path"),
                      (KDG, "KernelDG.create_DG")], extra_args=["C05"], timeout=1500, decisive=True),
         bounded_unit("C05/report-LCD-column-and-summary", "c13_report", [(FE, "Frontend.combined_view"), (FE, "Frontend.full_analysis_dict"),
-                     (FE, "Frontend._get_lcd_cp_ports")], extra_args=["C05"], timeout=1500),
+                     (FE, "Frontend._get_lcd_cp_ports")], extra_args=["C05"], timeout=(7000 if tier == "thorough" else 1500)),
     ]
